@@ -117,10 +117,9 @@ Section Det.
 
   Lemma inv_step : forall s m w o, inv s m w -> inv s (d_count_step S K step s m o) (d_step S K step w o).
   Proof.
-    intros s m w o Hinv. destruct o as [n|n act|]; cbn [d_count_step d_step].
+    intros s m w o Hinv. destruct o as [n|n act| | | |]; cbn [d_count_step d_step]; try exact Hinv.
     - apply inv_generate. exact Hinv.
     - apply inv_scan. exact Hinv.
-    - exact Hinv.
   Qed.
 
   Lemma inv_run : forall ops s m w, inv s m w ->
@@ -189,6 +188,16 @@ Section Det.
     d_run S K step (ops1 ++ DSaveReload :: ops2) w = d_run S K step (ops1 ++ ops2) w.
   Proof. intros. unfold d_run. rewrite !fold_left_app. reflexivity. Qed.
 
+  (* operations that fail, lock, unlock or reload have no effect on the derivation
+     state: dropping them from any history gives the same wallet, so generation
+     after a failed operation still equals the single-shot derivation *)
+  Theorem inert_ops_same : forall (ops : list (dop K)) (w : dwallet),
+    d_run S K step (filter d_effective ops) w = d_run S K step ops w.
+  Proof.
+    induction ops as [|o ops IH]; intros w; [reflexivity|].
+    unfold d_run in *. destruct o; cbn [filter d_effective fold_left d_step]; apply IH.
+  Qed.
+
   (* NewWallet with GenerateN / ScanN options is a generate followed by a scan *)
   Theorem new_wallet_prefix : forall s gen_n scan_n act,
     exists total, d_entries (d_new S K step s gen_n scan_n act) = derive_all s total /\ gen_n <= total.
@@ -235,7 +244,7 @@ Section Idx.
 
   Lemma step_ok : forall w o, chains_ok K child w -> chains_ok K child (i_step K child w o).
   Proof.
-    intros w o Hok. destruct o as [j n|n act| | |]; cbn [i_step]; try exact Hok.
+    intros w o Hok. destruct o as [j n|n act| | | |]; cbn [i_step]; try exact Hok.
     - unfold i_generate. destruct (i_generate_at K child j j n w) as [w'|] eqn:E; [|exact Hok].
       apply (generate_at_ok w 0 j n w' Hok E).
     - unfold i_scan. destruct n; [exact Hok | apply scan_from_ok].
@@ -279,6 +288,13 @@ Section Idx.
   Theorem lock_unlock_same_idx : forall (ops1 ops2 ops3 : list (iop K)) (w : iwallet K),
     i_run K child (ops1 ++ ILock :: ops2 ++ IUnlock :: ops3) w = i_run K child (ops1 ++ ops2 ++ ops3) w.
   Proof. intros. unfold i_run. rewrite !fold_left_app. cbn [fold_left i_step]. rewrite !fold_left_app. reflexivity. Qed.
+
+  Theorem inert_ops_same_idx : forall (ops : list (iop K)) (w : iwallet K),
+    i_run K child (filter i_effective ops) w = i_run K child ops w.
+  Proof.
+    induction ops as [|o ops IH]; intros w; [reflexivity|].
+    unfold i_run in *. destruct o; cbn [filter i_effective fold_left i_step]; apply IH.
+  Qed.
 
   Theorem reload_same_idx : forall (ops1 ops2 : list (iop K)) (w : iwallet K),
     i_run K child (ops1 ++ ISaveReload :: ops2) w = i_run K child (ops1 ++ ops2) w.
